@@ -127,18 +127,59 @@ fn exec(ctx: &mut Ctx, ev: &Ev, rng: &mut Rng) -> Option<String> {
         // `clone_from` over an object of a smaller / larger arity (with room for the terms)
         Kind::Sop => {
             let s = Sop::from_cubes(n, terms.iter().map(|t| CubeM::new(t.0, t.1).real()).collect());
+            // or the result of an operation: the OR of the two halves of the list, in one of the operator forms
+            let s = if (salt >> 17) % 3 == 0 && terms.len() >= 2 {
+                let h = terms.len() / 2;
+                let a = Sop::from_cubes(n, terms[..h].iter().map(|t| CubeM::new(t.0, t.1).real()).collect());
+                let b = Sop::from_cubes(n, terms[h..].iter().map(|t| CubeM::new(t.0, t.1).real()).collect());
+                match (salt >> 21) % 4 {
+                    0 => a | b,
+                    1 => &a | &b,
+                    2 => a | &b,
+                    _ => &a | b,
+                }
+            } else {
+                s
+            };
             let pad: Vec<Cube> = (0..terms.len() + 2).map(|_| Cube::one()).collect();
             let s = with_history(s, [Sop::from_cubes(n.saturating_sub(2), pad.clone()), Sop::from_cubes(n + 3, pad)], salt);
             (show(&s, salt), asg.iter().map(|m| s.value(*m as usize)).collect())
         }
         Kind::Esop => {
             let s = Esop::from_cubes(n, terms.iter().map(|t| CubeM::new(t.0, t.1).real()).collect());
+            let s = if (salt >> 17) % 3 == 0 && terms.len() >= 2 {
+                let h = terms.len() / 2;
+                let a = Esop::from_cubes(n, terms[..h].iter().map(|t| CubeM::new(t.0, t.1).real()).collect());
+                let b = Esop::from_cubes(n, terms[h..].iter().map(|t| CubeM::new(t.0, t.1).real()).collect());
+                match (salt >> 21) % 5 {
+                    0 => a ^ b,
+                    1 => &a ^ &b,
+                    2 => a ^ &b,
+                    3 => &a ^ b,
+                    _ => !!(a ^ &b),
+                }
+            } else {
+                s
+            };
             let pad: Vec<Cube> = (0..terms.len() + 2).map(|_| Cube::one()).collect();
             let s = with_history(s, [Esop::from_cubes(n.saturating_sub(2), pad.clone()), Esop::from_cubes(n + 3, pad)], salt);
             (show(&s, salt), asg.iter().map(|m| s.value(*m as usize)).collect())
         }
         Kind::Soes => {
             let s = Soes::from_cubes(n, terms.iter().map(|t| EcubeM { vars: t.0, xnor: t.1 == 1 }.real()).collect());
+            let s = if (salt >> 17) % 3 == 0 && terms.len() >= 2 {
+                let h = terms.len() / 2;
+                let a = Soes::from_cubes(n, terms[..h].iter().map(|t| EcubeM { vars: t.0, xnor: t.1 == 1 }.real()).collect());
+                let b = Soes::from_cubes(n, terms[h..].iter().map(|t| EcubeM { vars: t.0, xnor: t.1 == 1 }.real()).collect());
+                match (salt >> 21) % 4 {
+                    0 => a | b,
+                    1 => &a | &b,
+                    2 => a | &b,
+                    _ => &a | b,
+                }
+            } else {
+                s
+            };
             let pad: Vec<Ecube> = (0..terms.len() + 2).map(|_| Ecube::one()).collect();
             let s = with_history(s, [Soes::from_cubes(n.saturating_sub(2), pad.clone()), Soes::from_cubes(n + 3, pad)], salt);
             (show(&s, salt), asg.iter().map(|m| s.value(*m as usize)).collect())
